@@ -336,6 +336,13 @@ def jobs(tier):
     js = [Job(f"migrate[{k}]", job_migrate, paint=k) for k in (RC.QUICK_PAINTS if tier == "quick" else RC.PAINTS)]
     js.append(Job("colr0_layers[reused]", job_colr0, which="colr0"))
     js.append(Job("glyf_components[reused]", job_colr0, which="glyf"))
+    # OT-SVG leg: the documents emitted with reuse (shared <use>/<defs>/gradients) render each source layer
+    # exactly as the un-reused source (oracle = source layers), see harness/C02.py
+    from harness import C02
+
+    for sc in C02.SCENARIOS:
+        if sc.startswith("reuse") or sc.startswith("two docs") or sc.startswith("one doc"):
+            js.append(Job(f"otsvg docs[{sc}]", C02.job_docs, scenario=sc, affine="translation"))
     # obligations that discharge the contracts used above (paint.transformed, radial split)
     from harness import C16, C16_radial
 
